@@ -24,9 +24,8 @@ ASSUMPTIONS = ["numpy linear algebra", "PySCF SCF (molecule generation only)", "
                "(N,Sz) sector of the original qubit Hamiltonian selected as in C04 (Tangelo's encoded number / spin-z operators)",
                "tapering: retention of the sector ground energy is asserted when that state carries the reference determinant's "
                "Z2 labels (always the case when only the two parity symmetries exist); otherwise counted as precondition_not_met",
-               "trim_trivial_operator with a user dictionary: asserted for dictionaries in increasing key order (both reindex "
-               "settings) and for arbitrary insertion order with reindex=False; arbitrary order with reindex=True is evaluated and "
-               "counted but not asserted (ASSERT_UNORDERED_REINDEX) because the current code removes wrong string positions there",
+               "trim_trivial_operator with a user dictionary: asserted for dictionaries in any insertion order and both reindex "
+               "settings (arbitrary order with reindex=True was wrong on the pinned tree and is repaired by fix 733b644)",
                "tapering bounded to <=8 qubits (quick) / <=10 qubits (thorough); trimming <=6 qubits; compression <=6 qubits"]
 SHARDS = {"quick": 4, "thorough": 16}
 
@@ -451,7 +450,7 @@ def pair_sweep_cases():
 
 # --- trim_trivial_operator called directly with a user dictionary
 
-ASSERT_UNORDERED_REINDEX = False   # see ASSUMPTIONS: on the current tree reindex=True is only right for dicts in increasing key order
+ASSERT_UNORDERED_REINDEX = True   # (was False until fix 733b644 landed)
 
 
 @st.composite
